@@ -148,7 +148,7 @@ def tok_matches(tok, want):
     if want[0] == "bytes":
         if tok[0] != "bytes":
             return False
-        src = fp(unwrap_origin(tok[1], [r"str::as_bytes$", r"Cow.*deref$"]))
+        src = fp(unwrap_origin(tok[1], [r"str>?::as_bytes$", r"Cow.*deref$"]))
         return src == want[1]
     return False
 
